@@ -28,6 +28,8 @@ class Net(object):
         self.refuse = set(cfg.get('refuse', ()))      # conn attempt indices
         self.max_seg = cfg.get('max_seg', 64)
         self.eof_read_limit = cfg.get('eof_read_limit')  # spin detector
+        self.eagain_sends = set(cfg.get('eagain_sends', ()))  # send indices
+        self.sends_seen = 0
         self.conns = []            # accepted TcpConn, in order
         self.attempts = 0          # connect() calls so far
         self.fds = {}
@@ -252,6 +254,16 @@ class SimSocket(object):
         if conn.s2c_rst:
             raise ConnectionResetError(errno.ECONNRESET,
                                        'Connection reset by peer')
+        if self.net.eagain_sends and self.net.sends_seen in \
+                self.net.eagain_sends:
+            # a non-blocking socket whose send buffer is momentarily full
+            # (only used where the harness owns the socket)
+            self.net.sends_seen += 1
+            sim.stat('fault.send-eagain')
+            sim.log('send-eagain', conn.index)
+            raise BlockingIOError(errno.EAGAIN,
+                                  'Resource temporarily unavailable')
+        self.net.sends_seen += 1
         if conn.s2c_eof and conn.server_closed:
             # peer has closed: the first send succeeds, later ones may fail
             conn.sends_after_peer_close += 1
